@@ -471,6 +471,37 @@ def run(chk):
                     chk.violation('partial-vs-direct', desc, {'partial application': res[0], 'direct call': res[1]})
                 elif res[0][0] == 'ok':
                     chk.nontrivial.add(lhs)
+    # ---- fn:sort / array:sort on nodes: the default key is fn:data#1 (F&O 16.2.7): sort(S) = sort(S, (), data#1), elements are
+    # ordered by their atomized value (untypedAtomic as strings), not by name or structure; the order is stable
+    import xml.etree.ElementTree as _ET2
+    NAMES = ['a', 'b', 'c', 'd']
+    for _ in range(40 if chk.tier == 'quick' else 1500):
+        k = rng.randint(1, 6)
+        vals = [rng.choice(['1', '2', '10', '02', 'b', 'a', '', 'B', ' 1']) for _ in range(k)]
+        # build programmatically instead (random names, the value as text, an attribute)
+        root = _ET2.Element('r')
+        for i, v in enumerate(vals):
+            e = _ET2.SubElement(root, rng.choice(NAMES))
+            e.text = v or None      # an empty text chunk is still a text node for the tree builders (C02): not generated
+            e.set('k', rng.choice(vals))
+            e.set('id', str(i))
+        want = [str(i) for i, _ in sorted(enumerate(vals), key=lambda iv: iv[1])]     # stable sort by the string value (codepoint order)
+        wanta = [str(i) for i, _ in sorted(enumerate(root), key=lambda ie: ie[1].get('k'))]
+        for form, expr, w in (('sort', 'sort(/r/*) ! string(@id)', want), ('sort-data', 'sort(/r/*, (), data#1) ! string(@id)', want),
+                              ('array:sort', 'array:sort(array{/r/*})?* ! string(@id)', want), ('sort-attributes', 'sort(/r/*/@k) ! string(../@id)', wanta),
+                              ('sort-text', 'sort(/r/*/text()) ! string(../@id)', [x for x in want if vals[int(x)] != ''])):
+            chk.evaluations += 1
+            chk.count('sort-nodes:' + form)
+            desc = {'fn': form, 'expr': expr, 'document': _ET2.tostring(root, encoding='unicode')[:300]}
+            try:
+                got = select(root, expr, parser=XPath31Parser)
+                got = got if isinstance(got, list) else [got]
+            except ElementPathError as ex:
+                got = ['error ' + str(ex.code)]
+            if got != w:
+                chk.corr_fail.append((desc, got, w))
+                chk.violation('impl-vs-spec', desc, {'impl (ids in result order)': got, 'stable sort by the atomized value': w})
+            chk.nontrivial.add('sortnodes:' + form + repr(vals))
     chk.rule = ('fixed corpus (closures in loops, closure factories, shadowing at call time, HOFs, stable sort, partial application) + seeded '
                 'typed random programs (depth <= 4) evaluated twice under the 3.1 and 3.0 parsers against C16.Model.eval; non-trivial = distinct program')
     chk.obligations.append({'name': 'correspondence:impl==reference semantics', 'ok': not chk.corr_fail,
